@@ -62,6 +62,8 @@ struct verif_symexpr_map
     verif_symexpr_map(const verif_symexpr_map& o) { for (int i = 0; i < VERIF_NSYMS; i++) { has[i] = o.has[i]; val[i] = o.val[i]; } }
     verif_symexpr_map& operator=(const verif_symexpr_map& o) { for (int i = 0; i < VERIF_NSYMS; i++) { has[i] = o.has[i]; val[i] = o.val[i]; } return *this; }
     UTAP::expression_t& operator[](const UTAP::symbol_t& s) { __CPROVER_assert(s.id >= 0 && s.id < VERIF_NSYMS, "stub: symbol id in range"); has[s.id] = true; return val[s.id]; }
+    /* emplace / insert of a (key, value): keeps an existing entry (std::map semantics); the result is not used as a value */
+    void emplace(const UTAP::symbol_t& s, const UTAP::expression_t& e) { __CPROVER_assert(s.id >= 0 && s.id < VERIF_NSYMS, "stub: symbol id in range"); if (!has[s.id]) { has[s.id] = true; val[s.id] = e; } }
 };
 }  // namespace std
 
@@ -291,24 +293,38 @@ int w08_param_count(int dynamic, int i) { if (dynamic) return (int)doc.dyn_templ
    nfree new unbound parameters are declared */
 static expression_t args_[2];
 static expression_t pre_[2];
-/* the instantiated object is template 0 made into an ARBITRARY instance: its own `arguments` count is arbitrary and the
-   parameters with index >= nargs may already be bound (inherited mapping), as for an instance of an instance */
-int w08_add_instance(int name, int nfree, int nargs, int src_arguments, int pre_mapped)
+/* the instantiated object is an ARBITRARY instance: either template 0 itself (src_kind 0: its parameters are the template's)
+   or a separate partial instance of template 0 (src_kind 1) with its own parameter frame - ns parameters named 80+i that
+   are NOT the template's symbols - its own `arguments` count, and inherited bindings (pre_mapped: bit i = its parameter i
+   is bound already, bits 2/3 = template parameter 0/1 is bound already) */
+static instance_t src_;
+static symbol_t src_param_[2];
+static int src_kind_, src_ns_;
+int w08_add_instance(int name, int nfree, int nargs, int src_arguments, int pre_mapped, int src_kind, int ns)
 {
     template_t& t0 = doc.templates.at(0);
-    t0.arguments = (size_t)src_arguments;
+    src_kind_ = src_kind; src_ns_ = ns;
+    instance_t* src = &t0;
+    if (src_kind == 1) {
+        frame_t sp = frame_t::create(frame_t());
+        for (int i = 0; i < 2; i++) { if (i < ns) sp.add_symbol(80 + i, type_t(0), position_t()); }
+        src_.parameters = sp; src_.templ = &t0; src_.unbound = (size_t)ns;
+        src = &src_;
+    }
+    src->arguments = (size_t)src_arguments;
     for (int i = 0; i < 2; i++) {
-        if (i < (int)t0.parameters.get_size() && ((pre_mapped >> i) & 1)) { pre_[i] = expression_t::create_constant(60 + i); t0.mapping[t0.parameters[i]] = pre_[i]; }
+        src_param_[i] = i < (int)src->parameters.get_size() ? src->parameters[i] : symbol_t();
+        if (i < (int)src->parameters.get_size() && ((pre_mapped >> i) & 1)) { pre_[i] = expression_t::create_constant(60 + i); src->mapping[src->parameters[i]] = pre_[i]; }
     }
     frame_t params = frame_t::create(frame_t());
     for (int i = 0; i < 2; i++) { if (i < nfree) params.add_symbol(40 + i, type_t(0), position_t()); }
     std::vector<expression_t> a;
     for (int i = 0; i < 2; i++) { if (i < nargs) { args_[i] = expression_t::create_constant(50 + i); a.push_back(args_[i]); } }
-    instance_t& inst = doc.add_instance(name, t0, params, a, position_t());
+    instance_t& inst = doc.add_instance(name, *src, params, a, position_t());
     return doc.instances.index_of(&inst);
 }
 /* what: 0 count, 2 uid, 3 user data, 4 name, 6 unbound, 7 arguments, 8 templ is template 0, 9 number of parameters, 10+k: name of parameter k,
-   20+k: parameter k of TEMPLATE 0 is mapped to argument k (1), mapped to something else (2), unmapped (0); 30: type is INSTANCE over the free-parameter frame (arity == unbound) */
+   20+k: parameter k of the INSTANTIATED INSTANCE is mapped to argument k (1), mapped to something else (2), unmapped (0); 30: type is INSTANCE over the free-parameter frame (arity == unbound) */
 int w08_inst(int what, int i)
 {
     if (what == 0) return (int)doc.instances.size();
@@ -323,7 +339,7 @@ int w08_inst(int what, int i)
     if (what == 9) return (int)in.parameters.get_size();
     if (what >= 10 && what < 20) return verif_symtab[in.parameters[what - 10].id].name;
     if (what >= 20 && what < 30) {
-        symbol_t p = t0.parameters[what - 20];
+        symbol_t p = src_param_[what - 20]; /* parameter k of the instantiated instance */
         if (!in.mapping.has[p.id]) return 0;
         if (in.mapping.val[p.id].data == args_[what - 20].data) return 1;
         return in.mapping.val[p.id].data == pre_[what - 20].data ? 3 : 2; /* 3 = the inherited binding */
